@@ -22,6 +22,8 @@
   * `harmonicFlow_solves`          x cos ωt + (v/ω) sin ωt, v cos ωt − ω x sin ωt IS the exact solution (HasDerivAt)
   * `verlet_harmonic_local_error`  one step differs from the exact solution by at most (|x|+|v/ω|)|ω dt|³ (local error third order)
   * `vmap_iterate_bounded`         stability: the numerical solution stays within 2‖z₀‖ for all times (shadow invariant)
+  * `exp_steps_compose`            a generator that does not change along the path is integrated with NO discretisation error:
+                                   k electronic steps of dt are one step of k·dt, for every dt
   * `verlet_harmonic_global_error`, `…_xv`   after k steps (T = k dt) the error is at most k|ω dt|³‖z₀‖ = (|ω|T)(ω dt)²‖z₀‖:
                                    second order at fixed final time, for every k
 -/
@@ -561,5 +563,29 @@ theorem verlet_harmonic_global_error_xv (m ω : Fin n → ℝ) (hm : ∀ i, m i 
       field_simp
     rw [this, abs_mul]
     exact mul_le_mul_of_nonneg_left (le_trans him h) (abs_nonneg _)
+
+/-! ### a constant generator is integrated exactly -/
+
+/-- the electronic step with step matrix `U` -/
+def conjStep (U : Matrix (Fin N) (Fin N) ℂ) (ρ : Matrix (Fin N) (Fin N) ℂ) : Matrix (Fin N) (Fin N) ℂ := U * ρ * Uᴴ
+
+theorem conjStep_iterate (U ρ : Matrix (Fin N) (Fin N) ℂ) (k : ℕ) : (conjStep U)^[k] ρ = conjStep (U ^ k) ρ := by
+  induction k generalizing ρ with
+  | zero => simp [conjStep]
+  | succ k ih =>
+    rw [Function.iterate_succ_apply', ih]
+    simp only [conjStep, pow_succ', Matrix.conjTranspose_mul, Matrix.conjTranspose_pow]
+    simp only [Matrix.mul_assoc]
+
+/-- **a generator that does not change along the path is integrated without any discretisation error**: `k` steps of `dt`
+    are one step of `k·dt`, whatever `dt` - the result at a fixed final time does not depend on the step at all -/
+theorem exp_steps_compose (W ρ : Matrix (Fin N) (Fin N) ℂ) (dt : ℝ) (k : ℕ) :
+    (conjStep (mexp ((-(dt : ℂ) * Complex.I) • W)))^[k] ρ
+      = conjStep (mexp ((-((k * dt : ℝ) : ℂ) * Complex.I) • W)) ρ := by
+  rw [conjStep_iterate, ← Matrix.exp_nsmul]
+  congr 2
+  rw [← Nat.cast_smul_eq_nsmul ℂ, smul_smul]
+  congr 1
+  push_cast; ring
 
 end Mud.C07
